@@ -15,7 +15,11 @@ LifeVerdict(ev) ==
         owners1 == <<[r |-> 1, els |-> Els(ev.alts, ev.post.a)], [r |-> 2, els |-> Els(ev.alts, ev.post.b)]>>
         f0 == InitCells(owners0, ev.life.ext)
         run == LRun(f0, ev.life.evs, 1)
+        own == (IF ev.o = "a" THEN 1 ELSE 2) * 1000 + 1
     IN IF run.bad # 0 THEN "life-protocol"
+       \* aliasing assignment: the contained object is assigned to, never destroyed / re-constructed
+       ELSE IF ev.op \in SelfOps /\ \E i \in 1..Len(ev.life.evs) :
+                    ev.life.evs[i].c = own /\ ev.life.evs[i].k \in {"ctor", "cctor", "mctor", "dtor"} THEN "life-reconstruct"
        ELSE IF ~FinalOK(run.f, owners1, {ev.life.extend[j] : j \in 1..Len(ev.life.extend)}) THEN "life-final"
        ELSE "ok"
 
